@@ -29,6 +29,10 @@ CHECKS = {
    "TLA+ spec Writer.tla (bufio protocol, sticky error, final Flush) model-checked by TLC; every enumerated (write-size plan, fail offset, failure kind) executed on the real renderer; runs of real documents with the destination failing at every byte offset recorded and judged by the TLA+ acceptor TraceWriter.tla",
    "TLC explores every plan of up to 4 writes of 1,2,4,5,9 units (total <= 12, buffer 4 units) x every fail offset x short/zero failure and checks Prefix, ErrorSurfaces and termination (negative controls: dropped flush error, flush skipped when nothing is buffered); all ~6800 plans are executed on the real renderer with unit = 1024 bytes (exact comparison with the model is diagnostic) and at off-by-one offsets through four destination kinds; 60+ (600+) real documents including outputs of 20-30 KiB are converted with the destination failing at EVERY byte offset (stride + buffer-boundary neighbourhoods for the large ones), alternating Convert/Render, short/zero failures and plain, bufio(16/4096/65536) and custom BufWriter destinations; TLC judges each recorded run. Fault enumeration is exhaustive over offsets for the small documents.",
    "TLC, Json/IOUtils; the fault-injecting writer and the byte comparison with the fault-free output are harness code", "DESIGN.md 3.10, 5/C14"),
+ "C01": ("exploration",
+   "TLA+ generator Slots.tla (slot x payload x ending product) enumerated by TLC and every element, plus deep-nesting inputs, all short strings, repository examples and mutated documents, converted by the real library under all 256 configurations with a watchdog; abstract (configuration, api, outcome) events judged by the TLA+ acceptor TraceTotal.tla",
+   "Every document of the TLC-enumerated product of 47 text-bearing slots x 200 (thorough: 1660) payloads of escaping/robustness atoms x 2 endings, ~280 (560) structured deep-nesting / unclosed-opener inputs up to 400 (12000) repetitions, every string of length <= 3 over a 22-symbol Markdown alphabet (incl. UTF-8 continuation and lead bytes), ~950 repository examples and 2500 (60000) mutated documents is run under all 256 built-in configurations, alternating Convert and Parse+Render: 8.7 million calls in the quick tier. Panics are recovered and attributed to the first goldmark frame; a call exceeding 20 s is re-run alone in a child process with 60 s. The space of all byte strings is only sampled beyond length 3, so the level is exploration; TLC contributes the structured enumeration and the acceptance of the call trace.",
+   "TLC, Json; the watchdog's time limits; a never-failing bytes.Buffer destination", "DESIGN.md 5/C01"),
 }
 
 NOT_YET = "check not built yet in this revision of /verif (see DESIGN.md section 5 for the planned TLA+ decision procedure)"
